@@ -1,6 +1,7 @@
 package simrt
 
 import (
+	"io"
 	"io/fs"
 	"os"
 	"syscall"
@@ -444,4 +445,183 @@ func (w *World) readDirNR(p string) ([]*fileInfo, bool) {
 		res[len(res)-1] = &fileInfo{name: child, size: int64(len(e.data)), mtime: e.mtime, dir: isdir}
 	}
 	return res, true
+}
+
+// File replaces *os.File for the common read / write idioms (os.Open, os.Create, os.OpenFile). A file
+// opened for writing reaches the simulated disk when it is closed (or synced).
+type File struct {
+	w      *World
+	name   string
+	path   string
+	data   []byte
+	off    int64
+	write  bool
+	closed bool
+	real   *os.File
+}
+
+// OsOpen replaces os.Open.
+func OsOpen(name string) (*File, error) {
+	w := W
+	if w == nil || !w.fs.On {
+		f, err := os.Open(name)
+		if err != nil {
+			return nil, err
+		}
+		return &File{real: f, name: name}, nil
+	}
+	if err := w.fsPre("read", name); err != nil {
+		return nil, &fs.PathError{Op: "open", Path: name, Err: err}
+	}
+	d, st := w.readNR(clean(name))
+	if st == 1 {
+		return nil, &fs.PathError{Op: "open", Path: name, Err: syscall.ENOENT}
+	}
+	if st == 2 {
+		return &File{w: w, name: name, path: clean(name)}, nil // a directory handle
+	}
+	return &File{w: w, name: name, path: clean(name), data: d}, nil
+}
+
+// OsCreate replaces os.Create.
+func OsCreate(name string) (*File, error) {
+	return OsOpenFile(name, os.O_RDWR|os.O_CREATE|os.O_TRUNC, 0666)
+}
+
+// OsOpenFile replaces os.OpenFile.
+func OsOpenFile(name string, flag int, perm os.FileMode) (*File, error) {
+	w := W
+	if w == nil || !w.fs.On {
+		f, err := os.OpenFile(name, flag, perm)
+		if err != nil {
+			return nil, err
+		}
+		return &File{real: f, name: name}, nil
+	}
+	if flag&(os.O_WRONLY|os.O_RDWR|os.O_CREATE|os.O_APPEND|os.O_TRUNC) == 0 {
+		return OsOpen(name)
+	}
+	if err := w.fsPre("write", name); err != nil {
+		return nil, &fs.PathError{Op: "open", Path: name, Err: err}
+	}
+	f := &File{w: w, name: name, path: clean(name), write: true}
+	if flag&os.O_TRUNC == 0 {
+		if d, st := w.readNR(f.path); st == 0 {
+			f.data = d
+			if flag&os.O_APPEND != 0 {
+				f.off = int64(len(d))
+			}
+		} else if flag&os.O_CREATE == 0 {
+			return nil, &fs.PathError{Op: "open", Path: name, Err: syscall.ENOENT}
+		}
+	}
+	return f, nil
+}
+
+func (f *File) Name() string { return f.name }
+
+func (f *File) Read(p []byte) (int, error) {
+	if f.real != nil {
+		return f.real.Read(p)
+	}
+	if f.off >= int64(len(f.data)) {
+		return 0, io.EOF
+	}
+	n := copy(p, f.data[f.off:])
+	f.off += int64(n)
+	return n, nil
+}
+
+func (f *File) ReadAt(p []byte, off int64) (int, error) {
+	if f.real != nil {
+		return f.real.ReadAt(p, off)
+	}
+	if off >= int64(len(f.data)) {
+		return 0, io.EOF
+	}
+	n := copy(p, f.data[off:])
+	if n < len(p) {
+		return n, io.EOF
+	}
+	return n, nil
+}
+
+func (f *File) Seek(offset int64, whence int) (int64, error) {
+	if f.real != nil {
+		return f.real.Seek(offset, whence)
+	}
+	switch whence {
+	case io.SeekStart:
+		f.off = offset
+	case io.SeekCurrent:
+		f.off += offset
+	case io.SeekEnd:
+		f.off = int64(len(f.data)) + offset
+	}
+	return f.off, nil
+}
+
+func (f *File) Write(p []byte) (int, error) {
+	if f.real != nil {
+		return f.real.Write(p)
+	}
+	if !f.write {
+		return 0, &fs.PathError{Op: "write", Path: f.name, Err: syscall.EBADF}
+	}
+	end := f.off + int64(len(p))
+	if end > int64(len(f.data)) {
+		nd := make([]byte, end)
+		copy(nd, f.data)
+		f.data = nd
+	}
+	copy(f.data[f.off:], p)
+	f.off = end
+	return len(p), nil
+}
+
+func (f *File) WriteString(s string) (int, error) { return f.Write([]byte(s)) }
+
+func (f *File) Sync() error {
+	if f.real != nil {
+		return f.real.Sync()
+	}
+	if f.write {
+		f.w.writeNR(f.path, f.data)
+	}
+	return nil
+}
+
+func (f *File) Close() error {
+	if f.real != nil {
+		return f.real.Close()
+	}
+	if f.closed {
+		return &fs.PathError{Op: "close", Path: f.name, Err: os.ErrClosed}
+	}
+	f.closed = true
+	if f.write {
+		f.w.writeNR(f.path, f.data)
+	}
+	Yield()
+	return nil
+}
+
+func (f *File) Stat() (os.FileInfo, error) {
+	if f.real != nil {
+		return f.real.Stat()
+	}
+	if f.write {
+		return &fileInfo{name: base(f.path), size: int64(len(f.data)), mtime: f.w.now}, nil
+	}
+	if fi := f.w.statNR(f.path); fi != nil {
+		return fi, nil
+	}
+	return nil, &fs.PathError{Op: "stat", Path: f.name, Err: syscall.ENOENT}
+}
+
+func (f *File) ReadDir(n int) ([]os.DirEntry, error) {
+	if f.real != nil {
+		return f.real.ReadDir(n)
+	}
+	return OsReadDir(f.name)
 }
